@@ -321,7 +321,7 @@ def anchor_reference():
 def slice_items(tier):
   a = dedup(ge.family_gfa1("quick"))
   b = dedup(ge.family_gfa2_mixed("quick"))
-  return a[::23] + b[::29]
+  return a[::67] + b[::41]
 
 
 def digest(tier):
@@ -341,20 +341,23 @@ def digest(tier):
 
 
 def hashseed_crosscheck(ctx):
-  mine = digest(ctx.tier)
-  res = {"cases": len(mine), "seeds": [], "differences": 0}
+  items = slice_items(ctx.tier)
+  procs = []
   for seed in ("1", "2"):
     env = dict(os.environ, PYTHONHASHSEED=seed, GFAMC_REPO=REPO,
                PYTHONDONTWRITEBYTECODE="1", PYTHONPATH=REPO + ":" + VERIF)
-    p = subprocess.run([sys.executable, "-m", "gfamc.checks.c16", "digest",
-                        ctx.tier], cwd=VERIF, env=env, capture_output=True,
-                       text=True, timeout=600)
+    procs.append((seed, subprocess.Popen(
+        [sys.executable, "-m", "gfamc.checks.c16", "digest", ctx.tier],
+        cwd=VERIF, env=env, stdout=subprocess.PIPE, stderr=subprocess.PIPE,
+        text=True)))
+  mine = digest(ctx.tier)
+  res = {"cases": len(mine), "seeds": [], "differences": 0}
+  for seed, p in procs:
+    so, se = p.communicate(timeout=900)
     if p.returncode != 0:
-      raise RuntimeError("hash-seed cross-check failed to run: " +
-                         p.stderr[-500:])
-    other = json.loads(p.stdout)
+      raise RuntimeError("hash-seed cross-check failed to run: " + se[-500:])
+    other = json.loads(so)
     res["seeds"].append(int(seed))
-    items = slice_items(ctx.tier)
     for i, (x, y) in enumerate(zip(mine, other)):
       if x != y:
         res["differences"] += 1
